@@ -1,4 +1,22 @@
-"""C02  Keyword index answers Eq/Any/All and negations exactly, after any history."""
+"""C02  Keyword index answers Eq/Any/All and negations exactly, after any history.
+
+Generator modes (measured, quick tier, seed 0, 8000 cases): small 84%, bulk-hot 12%, bulk-wide 4%; the largest
+posting reached 65-120 docids in 7%, 121-300 in 5%, > 300 in 0.1% of the cases (7.5% of all cases reach >= 65
+docids under the class default tree_threshold, i.e. without an instance attribute); > 30 distinct keywords in 4%;
+> 120 withdrawn documents in 1.3%; keyword kinds str 25%, int 15%, num 15%, tuple 15%, bytes 10%, wide 10%,
+widestr 10%.
+
+Size- / value- / entry-point-dependent mutations tried on scratch copies (VERIF_REPO=/var/tmp/mut_strong1_<N>,
+deleted afterwards), all VIOLATION with a shrunk replay, quick tier, seed 0:
+  M3  unindex_doc skips postings with more than 100 docids ("cleaned up lazily")
+  M4  normalize() truncates float keywords to int (1.5 and 1 become one keyword; needs the num pool)
+  M6  BaseIndexMixin.docids drops not_indexed once more than 150 documents are indexed
+  M7  search(.., 'and') returns the smallest set without intersecting when it has more than 80 docids
+  M10 apply({'query': [..]}) defaults to operator 'or'
+  M12 docids() cached on (indexed_count, not_indexed_count)
+and the seeded changes C02_B (demotion to Set on unindex keeps working on the detached TreeSet; needs a posting
+that was promoted) and C02_F (applyEq hands the bare keyword to apply(): a tuple / bytes keyword is taken as a list).
+"""
 import importlib
 
 from lib.core import exc_name, idset
@@ -11,17 +29,27 @@ THEOREMS = ["Hyp.Keyword." + t for t in (
     "c02_erase_step", "c02_erase_run", "c02_erase_view", "c02_representation_independent",
     "c02_index_entry", "c02_query_entry_partial", "c02_notall_object_is_all", "c02_notall_object_differs")]
 CASES = {"quick": 8000, "thorough": 150000}
-BUDGET_S = {"quick": 40, "thorough": 700}
-RULE = ("histories of 5-60 (thorough: up to 400) index/reindex/unindex/reset/optimize/set-threshold calls over "
-        "docids 0..15 plus extreme ids and 3-7 keywords (str or int, ranked for the model); a document's next "
-        "keyword list is derived from its current one (grow, shrink, replace, same, reordered, with duplicates, "
-        "empty), 12% withdrawn (discriminator default), 10% unindex (half unknown ids), 3% reset, 2% str value "
-        "(TypeError); tree_threshold from {1,2,3,5,64} set on the instance at the start and changed at random "
-        "points, optimize() at random points; after each op with prob. 1/4 and at the end Eq/NotEq/Any/NotAny/"
-        "All/NotAll via index.applyX and via index.X(..).execute() with present/absent/repeated keywords and "
-        "the empty list; both BTrees families; list and tuple values; attribute and callable discriminators; "
-        "occasionally the posting representations are compared too. non-trivial = the answers contain at "
-        "least one non-empty and three different id sets")
+BUDGET_S = {"quick": 34, "thorough": 660}
+RULE = ("small mode (84%): histories of 5-60 (thorough: up to 400) index_doc/reindex_doc/unindex_doc/reset/optimize/"
+        "set-threshold calls over docids 0..15 plus extreme ids and 3-7 keywords; a document's next keyword list "
+        "is derived from its current one (grow, shrink, replace, same, reordered, with duplicates, empty), 12% "
+        "withdrawn (discriminator default), 10% unindex (half unknown ids, sometimes twice), 3% reset, 2% str "
+        "value (TypeError); tree_threshold from {1,2,3,5,64} set on the instance (15%: class default) and changed "
+        "at random points, optimize() at random points. bulk-hot mode (12%): 70-400 documents (dense or strided "
+        "docid runs anywhere in the family's range, any order) carry 1-4 shared keywords so that one posting "
+        "holds 65-400 docids, 60% of them under the class default tree_threshold (others 64/100/32/200/5 on the "
+        "instance), 12% with 121-199 withdrawn documents, 45% with a drain that takes the big posting back to "
+        "58-66 docids (or to nothing) by unindex / withdrawal / empty list / re-index without the keyword, then a "
+        "small history on first/last/random bulk ids and fresh ids; bulk-wide mode (4%): 35-110 distinct keywords. "
+        "Keyword pools (ranked to Int for the model; each pool mutually orderable): str (incl. ''), int, tuples of "
+        "strings incl. () (iterable keywords), bytes incl. b'', num (1 == 1.0 == True etc. are ONE keyword whose "
+        "spellings take turns; huge, negative, +-inf), 120 ints / 120 strings. After each op with prob. 1/4 and at "
+        "the end Eq/NotEq/Any/NotAny/All/NotAll via index.applyX and via index.X(..).execute() with present/"
+        "absent/repeated keywords and the empty list; KeywordIndex.apply() itself with a list, a tuple, {'query': "
+        "..} with operator and/or/absent, a bare string; the enumeration tuple (sometimes twice in a row); both "
+        "BTrees families; list, tuple and set values; attribute and callable discriminators; occasionally the "
+        "posting representations are compared too. non-trivial = the answers contain at least one non-empty and "
+        "four different id sets")
 LEVEL_TEXT = ("Lean 4 refinement proof: for every history (any tree_threshold, optimize() anywhere) the model of "
               "KeywordIndex, with its posting representation erased, represents the history's document table "
               "(invariant by induction over operations); Eq/Any/All and the negations return exactly the "
@@ -258,7 +286,7 @@ def gen_bulk(rng, tier, fam, vtype, kind):
     if kind == "hot" and rng.random() < 0.45:
         members = [d for d in cur if hot[0] in cur[d]]
         rng.shuffle(members)
-        target = rng.randrange(58, 67)
+        target = 0 if rng.random() < 0.2 else rng.randrange(58, 67)     # 0: the big posting goes away entirely
         for d in members[target:]:
             r = rng.random()
             if r < 0.4:
